@@ -212,6 +212,11 @@ func ltLenAt(fi *FnInfo, g map[string]string, v, x ssa.Value, visiting map[ssa.V
 	if call, ok := indexProducer(v); ok && sameIndexed(call.Call.Args[0], x) {
 		return true
 	}
+	// an index handed back by a module helper (`exact, wildcard := doc.matchStatements(path)`): on every return of the helper the
+	// value is a negative marker or below the length of the helper's own spelling of x (its parameters replaced by the arguments)
+	if helperIndexBelowLen(fi, v, x, visiting) {
+		return true
+	}
 	switch y := v.(type) {
 	case *ssa.Phi:
 		// a remembered index: where each value flows in it is below len(x) (negative markers are below any length)
@@ -248,6 +253,86 @@ func ltLenAt(fi *FnInfo, g map[string]string, v, x ssa.Value, visiting map[ssa.V
 		}
 	}
 	return false
+}
+
+func helperIndexBelowLen(fi *FnInfo, v, x ssa.Value, visiting map[ssa.Value]bool) bool {
+	var call *ssa.Call
+	k := 0
+	switch y := v.(type) {
+	case *ssa.Extract:
+		call, _ = y.Tuple.(*ssa.Call)
+		k = y.Index
+	case *ssa.Call:
+		call = y
+	}
+	if call == nil || len(visiting) > 6 {
+		return false
+	}
+	g := staticCallee(call)
+	if g == nil || g.Blocks == nil || !fi.W.IsProductFn(g) || len(g.Params) != len(call.Call.Args) || g == fi.Fn {
+		return false
+	}
+	xd := strings.TrimSuffix(desc(x), "[:]")
+	// the helper's values that are x in the caller's frame
+	var xs []ssa.Value
+	names, args := paramNames(g), argDescs(call)
+	seen := map[ssa.Value]bool{}
+	for _, b := range g.Blocks {
+		for _, in := range b.Instrs {
+			var cand ssa.Value
+			switch y := in.(type) {
+			case *ssa.IndexAddr:
+				cand = y.X
+			case *ssa.Index:
+				cand = y.X
+			case *ssa.Call:
+				if bi, ok := y.Call.Value.(*ssa.Builtin); ok && bi.Name() == "len" {
+					cand = y.Call.Args[0]
+				}
+			}
+			if cand == nil || seen[cand] {
+				continue
+			}
+			seen[cand] = true
+			if strings.TrimSuffix(substParams(desc(cand), names, args), "[:]") == xd {
+				xs = append(xs, cand)
+			}
+		}
+	}
+	if len(xs) == 0 {
+		return false
+	}
+	gi := fi.W.Info(g)
+	visiting[v] = true
+	defer delete(visiting, v)
+	n := 0
+	for _, b := range g.Blocks {
+		r, ok := blockTerm(b).(*ssa.Return)
+		if !ok || k >= len(r.Results) {
+			continue
+		}
+		n++
+		rv := r.Results[k]
+		if c, ok := rv.(*ssa.Const); ok && c.Value != nil && c.Value.Kind() == constant.Int {
+			if cv, ok := constant.Int64Val(c.Value); ok && cv < 0 {
+				continue
+			}
+		}
+		ge := guardsAtEnd(gi, b)
+		if ge == nil {
+			ge = map[string]string{}
+		}
+		okRet := false
+		for _, xg := range xs {
+			if ltLenAt(gi, ge, rv, xg, visiting) {
+				okRet = true
+			}
+		}
+		if !okRet {
+			return false
+		}
+	}
+	return n > 0
 }
 
 func parseConstInt(s string) (int64, bool) {
